@@ -137,8 +137,16 @@ def compute(case):
             bvec = np.array([int(p) for p in probs])
         elif vk == "float32" and all(float(np.float32(p)) == float(p) for p in probs):
             bvec = np.array(probs, dtype=np.float32)
+        elif var.get("shared_belief_objects"):
+            # ONE array object for every belief of the case, overwritten in place (pre-allocated filtering buffer)
+            shared_vec[:] = probs
+            bvec = shared_vec
         else:
             bvec = np.array(probs, dtype=float)
+        if var.get("shared_belief_objects") and isinstance(bdict, DictDistribution):
+            shared_dict.clear()                    # likewise ONE dictionary object, refilled in place
+            shared_dict.update(bdict)
+            bdict = shared_dict
         btup = Belief(tuple(s for s, _ in pairs), tuple(p for _, p in pairs))
         if be.get("own_initial") and not isinstance(own0, dict) and len(own0) == 1 and \
                 [float(x) for x in own0[0][0].probs] == [float(p) for p in probs]:
@@ -189,6 +197,40 @@ def compute(case):
             mutated.append("belief objects of belief kind %s" % be.get("kind"))
         return out
 
+    def history(h):
+        """multi-step filtering on ONE belief object updated in place (b[:] = posterior): every call is reported
+        together with the object's contents at the time of the call"""
+        offered = case["pomdp"]["actions"]
+        start = [fl(case["beliefs"][h["start"]]["b"][sid[s]]) for s in sl]
+        arr = np.array(start, dtype=float)
+        dd = DictDistribution({s: p for s, p in zip(sl, start) if p != 0 or not h.get("sparse")})
+        steps = []
+        for a_id, o_id in h["steps"]:
+            a, o = A[a_id], O[o_id]
+            ai, oi = al.index(a), oidx[o]
+            if h["kind"] == "vec":
+                cur = [float(x) for x in arr]
+                if any(x > 0 and a_id not in offered[sid[s]] for s, x in zip(sl, cur)):
+                    continue
+                st = {"kind": "vec", "contents": [fj(x) for x in cur], "ai": ai, "oi": oi,
+                      "pred_vec": [fj(x) for x in pomdp.predictive_observation_vec(arr, ai)],
+                      "est_vec": [[fj(x) for x in pomdp.state_estimator_vec(arr, ai, k)] for k in range(len(ol))]}
+                post = pomdp.state_estimator_vec(arr, ai, oi)
+                arr[:] = post if post.sum() > 0 else start
+            else:
+                cur = {s: float(dd.get(s, 0.0)) for s in sl}
+                if any(x > 0 and a_id not in offered[sid[s]] for s, x in cur.items()):
+                    continue
+                st = {"kind": "dict", "contents": [fj(cur[s]) for s in sl], "ai": ai, "oi": oi,
+                      "pred_dict": dict_out(pomdp.predictive_observation_dist(dd, a), oidx),
+                      "est_dict": [dict_out(pomdp.state_estimator(dd, a, ob), sidx) for ob in ol]}
+                post = pomdp.state_estimator(dd, a, o)
+                new = dict(post) if len(post) > 0 else {s: p for s, p in zip(sl, start) if p != 0}
+                dd.clear()
+                dd.update(new)
+            steps.append(st)
+        return steps
+
     mutated = []
     # results of the first calls are kept and re-read after everything else ran (stale / aliased results)
     keep = []
@@ -211,8 +253,11 @@ def compute(case):
         except BaseException as e:      # the same calls are made (and reported) under guard below
             if isinstance(e, (KeyboardInterrupt, SystemExit)):
                 raise
+    shared_vec = np.zeros(len(sl), dtype=float)
+    shared_dict = DictDistribution({})
     for be in case["beliefs"]:
         res["beliefs"].append(evaluate(be))
+    res["histories"] = [guarded(lambda h=h: history(h)) for h in case.get("histories", [])]
     # object reuse: after everything else ran on the same objects, the first beliefs give the same answers
     k = min(2, len(case["beliefs"]))
     res["repeat_equal"] = [evaluate(be) == prev for be, prev in zip(case["beliefs"][:k], res["beliefs"][:k])]
